@@ -8,6 +8,8 @@ Import ListNotations.
 Require Import Rapid.Generated.Consts Rapid.Generated.UnicodeLD.
 Require Import Rapid.Model.Persist Rapid.Model.PersistCorr.
 Require Import Rapid.Proofs.PersistNameProofs Rapid.Proofs.PersistTheorems.
+Require Rapid.Model.Base Rapid.Model.Monad Rapid.Model.Shrink Rapid.Proofs.FileProofs.
+Require Import Rapid.Proofs.FileEngine.
 Open Scope N_scope.
 
 (* What saveFailFile writes, loadFailFile reads back: for ALL captured outputs [out] (any bytes:
@@ -75,3 +77,33 @@ Example C06_name_instance :
   kindaSafeFilename lod up [99; 111; 110] = [99; 111; 110; 95] /\
   glob_match (failFilePattern lod up test) (failFileName lod up test [50; 48; 50; 54] [52; 50]) = true.
 Proof. vm_compute. repeat split; reflexivity. Qed.
+
+(* ---- the engine part: the two-run history through checkTB / doCheck (Proofs/FileEngine.v) ----
+   Run 1 fails and hands buffer b to saveFailFile (any captured output, any seed field); a later run - any
+   flags, any seed, any shrink candidates and clock - that finds those bytes in the directory (alone, or after
+   any number of files that cannot reproduce a failure) reports the failure from the file "after 0 tests",
+   before and instead of any random test case, with the very outcome of run 1's final replay, and does not
+   save it again.  Hypotheses on the property: the C01 ones (no rejected attempt leaves a trace: `dirty`;
+   the model's fuel suffices). *)
+Theorem C06_saved_failure_is_replayed_first :
+  forall geom LF, (1 <= LF)%nat -> forall lvl p,
+    (forall x, Monad.dirty (Monad.w (Shrink.run_case geom LF lvl p x)) = false) ->
+    (forall x, Monad.res (Shrink.run_case geom LF lvl p x) <> Base.Err Base.XFuel) ->
+    forall files1 checks1 early1 seed1 cands1 clock1 b out seedfield (pre post : list bytes)
+           checks2 nofailfile2 early2 seed2 cands2 clock2,
+    let tb1 := Shrink.checkTB geom LF lvl p files1 checks1 false early1 seed1 cands1 clock1 in
+    Shrink.tb_saved tb1 = Some b ->
+    seedfield < 2 ^ 64 -> Forall (fun u => u < 2 ^ 64) b ->
+    Forall (fun x => FileProofs.unusable geom LF lvl p (classify x)) pre ->
+    let file := save_bytes (bytes_of_string c_rapidVersion) out seedfield b in
+    let tb2 := Shrink.checkTB geom LF lvl p (map classify (pre ++ file :: post)) checks2 nofailfile2 early2 seed2 cands2 clock2 in
+    exists e,
+      (Shrink.tb_verdict tb1 = Shrink.VFailedAfter (Shrink.dc_valid (Shrink.tb_dc tb1)) e \/
+       Shrink.tb_verdict tb1 = Shrink.VPanicAfter (Shrink.dc_valid (Shrink.tb_dc tb1)) e) /\
+      (Shrink.tb_verdict tb2 = Shrink.VFailedAfter 0 e \/ Shrink.tb_verdict tb2 = Shrink.VPanicAfter 0 e) /\
+      Shrink.dc_fromfile (Shrink.tb_dc tb2) = Some (length pre) /\
+      Shrink.dc_valid (Shrink.tb_dc tb2) = 0%nat /\ Shrink.dc_invalid (Shrink.tb_dc tb2) = 0%nat /\
+      Shrink.tb_final tb2 = Shrink.tb_final tb1 /\ Shrink.tb_failed tb2 = true /\
+      Shrink.tb_saved tb2 = None /\ Shrink.tb_seed_shown tb2 = None.
+Proof. exact saved_failure_is_replayed_first. Qed.
+Print Assumptions C06_saved_failure_is_replayed_first.
